@@ -312,7 +312,7 @@ def execute(program, ctx, mode):
     def mk_class(bases, meta=False, slots=False):
         # classes with a __provides__ slot stay leaves: the slot's descriptor would be inherited as the class
         # attribute __provides__ by every subclass, and class-level declarations are not supported on them
-        bases = [b for b in bases if not M.classes[b].get('slots')]
+        bases = [b for b in bases if not M.classes[b].get('slots') or M.classes[b].get('builtin')]
         for attempt in (bases, bases[:1], []):
             try:
                 ns = {'__module__': 'zisim.w'}
@@ -338,6 +338,22 @@ def execute(program, ctx, mode):
             ctx.probe('class-with-__provides__-slot')
         return c
 
+    # one world in four: the builtin type `list` is class 0, with declarations of its own (they live in
+    # BuiltinImplementationSpecifications, not on the type); other classes may inherit from it.  Instances of the builtin
+    # itself cannot carry declarations and the type cannot carry class-level ones, so those operations go elsewhere.
+    if h64(program.get('seed') or 0, 'builtin-base-world') % 4 == 0:
+        bimpl = [h64(program.get('seed') or 0, 'builtin-impl') % nI]
+        classImplements(list, *[ifs[x] for x in bimpl])
+        classes.append(list)
+        cb_ = M.new_class([])
+        M.class_implements(cb_, bimpl)
+        M.classes[cb_]['slots'] = True          # (same restrictions as a class with a __provides__ slot: a leaf for class-level checks)
+        M.classes[cb_]['builtin'] = True
+        ctx.probe('builtin-type-with-declarations')
+        if spy_world:
+            spy = Spy(cb_)
+            spies.append(spy)
+            implementedBy(list).subscribe(spy)
     for ci, bs in enumerate(W['classes']):
         fl = (W.get('cflags') or [{}] * (ci + 1))[ci] if ci < len(W.get('cflags') or []) else {}
         mk_class([b % len(classes) for b in bs] if classes else [], fl.get('meta', False), fl.get('slots', False))
@@ -428,6 +444,9 @@ def execute(program, ctx, mode):
             if want_super:
                 check_super(o, ob)
 
+    class SuperSub(super):
+        pass
+
     def check_super(o, ob, start=0):
         mro = type(ob).__mro__
         m = M.obs[o]
@@ -440,7 +459,8 @@ def execute(program, ctx, mode):
             for cc in rest:
                 slo |= M.L(cc)
                 shi |= M.U(cc)
-            sup = super(C, ob)
+            # (every other proxy is an instance of a subclass of `super`, as cooperative frameworks define them)
+            sup = (SuperSub if (kk + o) % 2 else super)(C, ob)
             g1 = as_set(providedBy(sup))
             g2 = as_set(implementedBy(sup))
             ctx.probe('super-query')
@@ -593,6 +613,11 @@ def execute(program, ctx, mode):
                 if not classes:
                     continue
                 c = op['c'] % len(classes)
+                if M.classes[c].get('builtin'):
+                    derived = [x for x in range(len(classes)) if not M.classes[x].get('builtin')]
+                    if not derived:
+                        continue
+                    c = derived[op['c'] % len(derived)]
                 obs.append(classes[c]())
                 M.obs.append(dict(cls=c, must=[], may=[]))
                 ctx.log(step, 'newob', len(obs) - 1, c)
